@@ -61,6 +61,13 @@ def loop {S G D : Type} (P : Prng S G D) (n : Nat) (a : SeedArg S G) (glob : G) 
   let r := loopS P n (toStream P a) glob
   (r.1, (match a with | .int s => .int s | _ => r.2.1), r.2.2)
 
+/-- the repetition loop as a function of the one fact about its shape that matters (read off the source by the
+translator, `QGen.C15.loopPassesStream`): does every repetition receive the stream converted once before the loop, or the
+raw argument, which each repetition then converts anew? -/
+def loopWith {S G D : Type} (passesStream : Bool) (P : Prng S G D) (n : Nat) (a : SeedArg S G) (glob : G) :
+    List D × SeedArg S G × G :=
+  if passesStream then loop P n a glob else loopS P n a glob
+
 /-- state of a generator after `k` repetitions drew from it -/
 def advance {S G D : Type} (P : Prng S G D) : Nat → G → G
   | 0, g => g
